@@ -65,6 +65,10 @@ func Acquire(buf buffer.Buffer) Writer {
 
 var errClosed = errors.New("operation on closed writer")
 
+// closedWriter replaces the writer in a message writer detached by End/Build,
+// so that further calls on that handle return errClosed instead of panicking.
+var closedWriter = &writer{err: errClosed}
+
 type writer struct {
 	*writerState
 
